@@ -863,12 +863,29 @@ class SBytes:
             out.append(s)
         return out
 
+    def _merged(self):
+        """_pruned() with adjacent segments of one source fused when they are provably contiguous on this path
+        (x[a:b] ++ x[b:c] is x[a:c]), so that ropes cut at different places compare equal"""
+        c = ctx()
+        out = []
+        for s in self._pruned():
+            if out and s.src is not None and out[-1].src is s.src:
+                p = out[-1]
+                if c._check(tint(p.lo) + tint(p.n) != tint(s.lo)) == z3.unsat:
+                    out[-1] = Seg(p.src, p.lo, _simp(tint(p.n) + tint(s.n)))
+                    continue
+            if out and s.src is None and out[-1].src is None:
+                out[-1] = Seg(data=bytes(out[-1].data) + bytes(s.data))
+                continue
+            out.append(s)
+        return out
+
     def prov_eq(self, o):
         """provenance equality (same bytes by construction): after dropping segments that are provably
         empty on this path both ropes must have the same shape; the result is the conjunction of the
         offset/length equalities (a term, decided by the solver).  Concrete segments compare by value."""
         o = SBytes.of(o)
-        a, b = self._pruned(), o._pruned()
+        a, b = self._merged(), o._merged()
         if len(a) != len(b):
             return False
         conj = []
